@@ -180,7 +180,9 @@ func isNilRng(r eco.Rng) any {
 	}
 	return r
 }
-func quote(s string) string { return "\"" + strings.NewReplacer("\n", `\n`, "\t", `\t`, "\r", `\r`).Replace(s) + "\"" }
+func quote(s string) string {
+	return "\"" + strings.NewReplacer("\n", `\n`, "\t", `\t`, "\r", `\r`).Replace(s) + "\""
+}
 
 func runC18(c *core.Ctx, ck *Check) {
 	evalWitnesses(c, ck)
@@ -244,9 +246,25 @@ func runC18(c *core.Ctx, ck *Check) {
 				rep(evalC18(c, e, "v-pad", []string{s, ps, partner}))
 			}
 		}
-		// ranges
-		for k := 0; k < c.Scale(150, 300); k++ {
-			rs := gen.RangeOne(e.Name, r)
+		// ranges (the first pool also gets the fixed spelling-sensitive vectors shared with C20)
+		var fixedR, fixedV []string
+		if j.k == 0 {
+			if vec, ok := c20Vectors[e.Name]; ok {
+				fixedR, fixedV = vec[0], vec[1]
+			}
+		}
+		for k := 0; k < c.Scale(150, 300)+len(fixedR); k++ {
+			var rs string
+			if k < len(fixedR) {
+				rs = fixedR[k]
+				for _, fv := range fixedV {
+					w.Count("evaluations", 1)
+					ps, _ := pad(rs)
+					rep(evalC18(c, e, "r-pad", []string{rs, ps, fv}))
+				}
+			} else {
+				rs = gen.RangeOne(e.Name, r)
+			}
 			if r.IntN(12) == 0 {
 				rs = gen.Hostile(rs, r)
 			}
